@@ -37,7 +37,11 @@ impl GetIter {
     // Save oid for next request.
     // Return true if next request may be send or return false otherwise
     pub fn set_next_oid(&mut self, oid: &SnmpOid) -> bool {
-        if self.start_oid.as_borrowed().starts_with(oid) {
+        // Must stay within the requested subtree and move strictly forward,
+        // otherwise a misbehaving agent can make the walk repeat or loop forever
+        if self.start_oid.as_borrowed().starts_with(oid)
+            && oid.cmp_lexicographic(&self.next_oid.as_borrowed()) == std::cmp::Ordering::Greater
+        {
             self.next_oid.store(oid);
             true
         } else {
